@@ -102,6 +102,24 @@ mod verif_c16_sort {
         assert!(natural_cmp(a, b) == va.cmp(&vb));
         kani::cover!(va == vb && a.len() != b.len()); kani::cover!(va < vb && a.len() > b.len());
     }
+    /// fixed lengths: LA resp. LB symbolic digits (leading zeros included) compare by numeric value
+    fn runs_fixed<const LA: usize, const LB: usize>() {
+        let mut ba = [b'0'; 4]; let mut bb = [b'0'; 4];
+        let mut va = 0u32; let mut vb = 0u32;
+        let mut k = 0;
+        while k < 4 {
+            if k < LA { let d: u8 = kani::any(); kani::assume(d < 10); ba[k] = b'0' + d; va = va * 10 + d as u32; }
+            if k < LB { let d: u8 = kani::any(); kani::assume(d < 10); bb[k] = b'0' + d; vb = vb * 10 + d as u32; }
+            k += 1;
+        }
+        let a = unsafe { std::str::from_utf8_unchecked(&ba[..LA]) }; let b = unsafe { std::str::from_utf8_unchecked(&bb[..LB]) };
+        assert!(natural_cmp(a, b) == va.cmp(&vb), "digit runs compare by numeric value, leading zeros or not");
+        kani::cover!(va == vb); kani::cover!(va < vb);
+    }
+    #[kani::proof] #[kani::unwind(7)] fn runs_fixed_1_1() { runs_fixed::<1, 1>(); }
+    #[kani::proof] #[kani::unwind(7)] fn runs_fixed_1_2() { runs_fixed::<1, 2>(); }
+    #[kani::proof] #[kani::unwind(7)] fn runs_fixed_2_2() { runs_fixed::<2, 2>(); }
+    #[kani::proof] #[kani::unwind(7)] fn runs_fixed_2_3() { runs_fixed::<2, 3>(); }
     fn any_str<'a>(buf: &'a mut [u8; 3]) -> &'a str {
         let n: usize = kani::any(); kani::assume(n <= 2);
         let mut k = 0;
@@ -292,8 +310,10 @@ def build(S: Sources) -> Unit:
                     covers="SortingAttr::cmp_bench_arg_names (integer arguments, name and kind attributes)"),
         KaniHarness("verif_c16::location_is_declaration_order", "bounded", bound="three argument slots", covers="SortingAttr::cmp_bench_arg_names (location)"),
         KaniHarness("verif_c16::tie_breakers", "complete", covers="SortingAttr::with_tie_breakers"),
-        KaniHarness("verif_c16_sort::digit_runs_by_value", "bounded", bound="digit strings of 1-2 digits", covers="util::sort::cmp_int, natural_cmp on digit runs", tier="thorough"),
-        KaniHarness("verif_c16_sort::natural_cmp_consistent", "bounded", bound="strings of up to 2 bytes over {0,1,9,a,<}", covers="util::sort::natural_cmp (reflexive, antisymmetric)", tier="thorough"),
+        *[KaniHarness(f"verif_c16_sort::runs_fixed_{la}_{lb}", "bounded", bound=f"a run of {la} digits against a run of {lb} digits (all digit values, leading zeros included)",
+                      covers="util::sort::natural_cmp / Token::cmp / cmp_int: digit runs compare by numeric value", tier=("quick" if la == 1 else "thorough")) for la, lb in ((1, 1), (1, 2), (2, 2), (2, 3))],
+        KaniHarness("verif_c16_sort::digit_runs_by_value", "bounded", bound="digit strings of 1-2 digits", covers="util::sort::cmp_int, natural_cmp on digit runs", tier="experimental"),
+        KaniHarness("verif_c16_sort::natural_cmp_consistent", "bounded", bound="strings of up to 2 bytes over {0,1,9,a,<}", covers="util::sort::natural_cmp (reflexive, antisymmetric)", tier="experimental"),
     ]
     return Unit(
         property_id="C16",
